@@ -203,7 +203,23 @@ func ParentMain(propID, tier string, seed uint64, replay string) int {
 					agg.Counters["resumed_after_crash"]++
 				}
 			default:
-				broken = append(broken, fmt.Sprintf("batch %d: child failed (%v) case=%q: %s", r.batch, r.exitErr, open, first))
+				// The child died without a panic / fatal error of its own: a signal from outside,
+				// the machine's OOM killer, or the race detector's runtime giving up (it aborts when
+				// more than ~8 000 goroutines are alive at once, which a starved machine can produce
+				// by letting asynchronous work pile up).  None of that is evidence about inbucket:
+				// the open case and the rest of the batch are run again in fresh processes; only a
+				// second death of the same kind makes the run unusable.
+				if replay == "" && open != "" && r.only == "" && r.after == "" && r.resumes < 1 {
+					again := &childRun{batch: r.batch, slow: 2, only: open, resumes: r.resumes + 1}
+					rest := &childRun{batch: r.batch, slow: 1, after: open, resumes: r.resumes + 1}
+					runChildren(p, exe, tier, seed, nbatch, scratch, timeout, []*childRun{again}, 1)
+					runChildren(p, exe, tier, seed, nbatch, scratch, timeout, []*childRun{rest}, 1)
+					runs = append(runs, again, rest)
+					agg.Counters["rerun_after_unattributable_child_death"]++
+					inconclusive = append(inconclusive, fmt.Sprintf("batch %d: child died outside any code of its own in case %q (%s); case and rest of the batch re-run", r.batch, open, Trunc(first, 160)))
+				} else {
+					broken = append(broken, fmt.Sprintf("batch %d: child failed (%v) case=%q: %s", r.batch, r.exitErr, open, first))
+				}
 			}
 		}
 		// Race reports.
@@ -510,7 +526,13 @@ func classifyCrash(log string) (kind, fn, first string) {
 		}
 	}
 	if idx < 0 {
-		if len(lines) > 0 {
+		for _, l := range lines {
+			if strings.HasPrefix(l, "SIG") || strings.Contains(l, "ThreadSanitizer") || strings.HasPrefix(l, "HARNESS:") {
+				first = Trunc(l, 300)
+				break
+			}
+		}
+		if first == "" && len(lines) > 0 {
 			first = Trunc(strings.Join(lines[max(0, len(lines)-6):], " | "), 500)
 		}
 		return "unknown", "", first
